@@ -299,6 +299,16 @@ def scripted_cases():
     check("clip-inplace-second-bound-self", lambda: (T(2, 3),), lambda t: np.clip(t, 2.5, np.ones((5, 5)), out=t), temporaries=True)
     check("clip-inplace-second-bound-method", lambda: (T(2, 3), T(2, 3)), lambda t, x: x.clip(0.5, np.ones(4), out=t), temporaries=True)
     check("clip-inplace-first-bound", lambda: (T(2, 3), T(2, 3)), lambda t, x: mg.clip(x, np.ones(4), 0.5, out=t))
+    # a rejected constant= next to out=: nothing may have been written into the target, with tracking on or suspended
+    def _untracked(f):
+        def g(*ts):
+            with mg.no_autodiff:
+                return f(*ts)
+        return g
+    check("out-constant-nonbool", lambda: (T(2, 3), T(2, 3)), lambda t, x: mg.add(x, x, out=t, constant=1))
+    check("out-constant-nonbool-untracked", lambda: (T(2, 3), T(2, 3)), _untracked(lambda t, x: mg.add(x, x, out=t, constant=1)))
+    check("out-constant-nonbool-unary-untracked", lambda: (T(2, 3), T(2, 3)), _untracked(lambda t, x: mg.exp(x, out=t, constant="no")))
+    check("out-view-constant-nonbool-untracked", lambda: (T(2, 3), T(3)), _untracked(lambda t, x: mg.multiply(x, x, out=t[0], constant=1)), temporaries=True)
     check("where-shape", lambda: (T(2, 3), T(4)), lambda a, b: mg.where(np.ones((2, 3), bool), a, b))
     check("stack-shape", lambda: (T(2, 3), T(4)), lambda a, b: mg.stack([a, b]))
     # failures on natively read-only memory (NumPy refuses the write): the failing statement comes *after* ops that
@@ -432,7 +442,7 @@ def scripted_cases():
     return out
 
 
-N_SCRIPTED = 53
+N_SCRIPTED = 57
 
 
 def run(ctx: Ctx) -> Outcome:
